@@ -8,9 +8,14 @@ from gen import pyfmt as G
 def main():
     chk = common.Check('C12')
     import pyfmt_common as C
-    proved = chk.prove('I18n.Props.C12', generated=('pyfmt',))
-    problems = ' '.join(chk.lean.problems)
-    driver_ok = os.path.exists(common.driver_path()) and not any('untranslatable' in s for s in chk.lean.translation.values()) \
+    proved = chk.prove('I18n.Props.C12', generated=('pyfmt', 'pyfmtconv'), extra_targets=())
+    problems = ' '.join(p for p in chk.lean.problems if 'translator(pyfmtconv)' not in p)
+    # the tie by translation (first part): Conversion.__init__ / FormatString.add_argument regenerated from the current lib/strformat/python.py and
+    # proved equal to PyFmt.conversion / addArgument (Props/C12Tie.lean)
+    tie_ok = common.prove_tie(chk, 'I18n.Props.C12Tie', ('pyfmtconv',),
+                              'Conversion.__init__ / FormatString.add_argument regenerated from the current lib/strformat/python.py (Generated/PyFmtConv.lean) are no longer '
+                              'proved equal to PyFmt.conversion / PyFmt.addArgument (generated_conversion_eq_model, generated_add_argument_eq_model, generated_parse_eq_model and the corollaries)')
+    driver_ok = os.path.exists(common.driver_path()) and not any('untranslatable' in s for k, s in chk.lean.translation.items() if k != 'pyfmtconv') \
         and 'Driver' not in problems and 'I18n.Model' not in problems and 'I18n.Spec' not in problems
 
     boost = 3 if chk.broken else 1
@@ -24,11 +29,24 @@ def main():
     disagreeing = []
     oracle_dis = []
     if driver_ok:
+        recorded = {}
+        plain_stream = chk.stream
+        def recording_stream(name, lines, outs, *a, **k):
+            recorded[name] = (lines, outs)
+            return plain_stream(name, lines, outs, *a, **k)
+        chk.stream = recording_stream
         res = C.run_parse_stream(chk, {k: v for k, v in fam.items() if v})
         for name, ss in res.items():
             disagreeing += ss
         sample = fam['corpus'] + fam['boundary'] + fam['multi'][:3000] + fam['malformed'][:2000] + fam['single'][:1500]
         disagreeing += C.run_nowarn_stream(chk, sample)
+        chk.stream = plain_stream
+        if tie_ok:
+            # the same inputs (and the same outputs of the real code) through the parser whose Conversion.__init__ is the definition regenerated from
+            # the source (driver ops gparse / gparse-nowarn)
+            for name, (lines, outs) in recorded.items():
+                if lines and lines[0].startswith(('pyfmt parse ', 'pyfmt parse-nowarn ')):
+                    chk.stream(name + '-generated', [l.replace('pyfmt parse', 'pyfmt gparse', 1) for l in lines], outs)
         disagreeing += C.run_plain_stream(chk, fam['corpus'] + fam['boundary'] + fam['context'] + fam['short'] + fam['multi'] + fam['malformed'])
         # the reference model of the interpreter against the interpreter
         ostr = fam['corpus'] + fam['boundary'] + fam['short'] + fam['context'][::3] + fam['single'] + fam['multi'] + fam['malformed']
@@ -71,7 +89,10 @@ def main():
                  'to int/float/str/other); it is compared on every run with the running interpreter (pyfmt-oracle stream): fidelity is by '
                  f'correspondence with CPython {sys.version.split()[0]} (64-bit) only',
                  'the hypothesis PlainPercent is the model\'s plainPercent; it is compared with an independent regex reading of the domain (pyfmt-plain)',
-                 'the correspondence harness (canonicalisers in tools/checks/pyfmt_common.py, Driver/PyFmt.lean)'],
+                 'the correspondence harness (canonicalisers in tools/checks/pyfmt_common.py, Driver/PyFmt.lean)',
+                 'tie by translation + proof (first part): tools/translate/pyfmtconv2lean.py (over tools/translate/pytr core + objfn) is trusted; the kit Model/PyFmtPy.lean is shared by both '
+                 'sides; Conversion.__init__ and FormatString.add_argument regenerated from the current lib/strformat/python.py are PROVED equal to PyFmt.conversion / addArgument '
+                 '(Props/C12Tie.lean), and the parser with the regenerated constructor runs against CPython in the pyfmt-*-generated streams'],
         explanation=EXPLANATION)
 
 EXPLANATION = (
@@ -93,7 +114,12 @@ EXPLANATION = (
     'modelled) and of the hand-written model to the code (pyfmt-* streams). Finding fixed in /repo: 84eb507 (integer conversions with '
     'literal precision 2^31-3..2^31-1 were accepted; CPython raises OverflowError for them whatever the argument). OUTSTANDING: '
     'nothing of the design list is missing.  Also proved: outside_domain_cpython_rejects / accept_formats_needs_domain (outside the '
-    'domain the CPython 3.12 model formats nothing while the parser accepts e.g. %5% - the hypothesis is necessary).')
+    'domain the CPython 3.12 model formats nothing while the parser accepts e.g. %5% - the hypothesis is necessary). '
+    'TIE BY TRANSLATION, first part (Props/C12Tie.lean): Generated/PyFmtConv.lean is rewritten from the current lib/strformat/python.py on every run (Conversion.__init__, '
+    'FormatString.add_argument) and proved equal to PyFmt.conversion / addArgument for all parent states, all directives and both settings of the warn switch '
+    '(generated_conversion_eq_model, generated_add_argument_eq_model, generated_add_argument_raw); the parser with the regenerated constructor in the modelled loop is PyFmt.parse '
+    '(generated_parse_eq_model), and accept_formats, malformed_rejected, reject_reasons, error_own, accept_formats_canonical are restated about it (*_generated). The character scanner of '
+    'FormatString.__init__ (the while-loop over enumerate(s)) and the final grouping remain hand-modelled, tied by the pyfmt-* streams.')
 
 if __name__ == '__main__':
     common.main_wrapper(main)
